@@ -4785,4 +4785,5 @@ fn provenance_rooted_at_variable(provenance: &Provenance, name: &str) -> bool {
 #[cfg(feature = "verif")]
 pub mod verif {
     pub use super::narrowing::{compute_complement, intersect_types};
+    pub use super::typing::{contains_variables, substitute, unify};
 }
